@@ -24,8 +24,26 @@ From ZI Require Export Lib.Util Model.Ro Model.Adapter Model.Lookup Model.Super.
 From ZI Require Model.RegSys Tie.RegCommon.
 
 (* use_c, world, reported mros, history, answers, I.providedBy sets *)
+(* a step of a tie history: an operation of the model, or a second look at the specification object
+   that operation number i returned earlier and the test has been HOLDING since ("held": its content
+   now; a specification handed out for a proxy stays a live dependent of the class specifications) *)
+Inductive top := TOp (o : op) | THeld (i : nat).
+
 Definition decl_case :=
-  (bool * env * list (list cls) * list op * list (list nat) * list (option (list nat)))%type.
+  (bool * env * list (list cls) * list top * list (list nat) * list (option (list nat)))%type.
+
+(* the model's history; [hist] = the model's own answers so far (un-renumbered identities) *)
+Fixpoint trun (uc : bool) (E : env) (st : state) (hist : list (list nat)) (ops : list top) : list (list nat) :=
+  match ops with
+  | [] => []
+  | TOp o :: r => let '(st', a) := step uc E st o in a :: trun uc E st' (hist ++ [a]) r
+  | THeld i :: r =>
+      let a := match nth i hist [] with
+               | 1 :: k :: id :: _ => obs_ref E st (Some (ref_of (4 * id + k)))
+               | _ => [0]
+               end in
+      a :: trun uc E st (hist ++ [a]) r
+  end.
 
 (* a second stream runs registry histories over a STATIC world that contains super proxies through
    the shared ordered registry model (Model/Adapter.v + Model/Lookup.v + Model/RegSys.v, world
@@ -54,7 +72,7 @@ Definition model_mros (E : env) : list (option (list cls)) :=
 
 Definition model_out (c : case_t) : list (option (list cls)) * list (list nat) :=
   match c with
-  | CDecl (uc, E, _, ops, _, _) => (model_mros E, renumber [] (run uc E init ops))
+  | CDecl (uc, E, _, ops, _, _) => (model_mros E, renumber [] (trun uc E init [] ops))
   | CReg h => ([], RegCommon.hist_model_out h)
   end.
 
@@ -76,7 +94,7 @@ Definition check_model_decl (c : decl_case) : bool :=
   let '(uc, E, mros, ops, ans, ips) := c in
   env_ok E
   && list_eqb (option_eqb lnat_eqb) (model_mros E) (map Some mros)
-  && llnat_eqb (renumber [] (run uc E init ops)) ans
+  && llnat_eqb (renumber [] (trun uc E init [] ops)) ans
   && all2 ip_ok ans ips.
 
 (* ---- the Spec oracle *)
@@ -211,20 +229,30 @@ Definition spec_adapt (E : env) (mros : list (list cls)) (d : sdecl) (regs : lis
       end
   end.
 
-Fixpoint spec_run (E : env) (mros : list (list cls)) (d : sdecl) (regs : list registration)
-         (ops : list op) (ans : list (list nat)) (ips : list (option (list nat))) : bool :=
+Fixpoint spec_run (E : env) (mros : list (list cls)) (all : list top) (d : sdecl) (regs : list registration)
+         (ops : list top) (ans : list (list nat)) (ips : list (option (list nat))) : bool :=
   match ops, ans, ips with
   | [], [], [] => true
-  | o :: ops', a :: ans', ip :: ips' =>
+  | THeld i :: ops', a :: ans', ip :: ips' =>
+      (* the held specification of a proxy must show what the proxy would be told NOW *)
+      match nth i all (THeld 0) with
+      | TOp (OProvidedBy x) | TOp (OImplementedBy x) =>
+          match x with
+          | ASuper _ _ | ASuperC _ _ => spec_query E mros d x false a None
+          | _ => true
+          end
+      | _ => true
+      end && spec_run E mros all d regs ops' ans' ips'
+  | TOp o :: ops', a :: ans', ip :: ips' =>
       match o with
-      | OImplements c ifs => spec_run E mros (s_add E d c ifs) regs ops' ans' ips'
-      | OFirst c i => spec_run E mros (s_add E d c [i]) regs ops' ans' ips'
-      | OOnly c ifs => spec_run E mros (sd_set d c (add_new ifs [], [], false)) regs ops' ans' ips'
-      | OImplSpec c b => spec_run E mros (s_add_spec E d c b) regs ops' ans' ips'
-      | OProvidedBy x => spec_query E mros d x false a ip && spec_run E mros d regs ops' ans' ips'
-      | OImplementedBy x => spec_query E mros d x true a ip && spec_run E mros d regs ops' ans' ips'
-      | ORegister r => spec_run E mros d (regs ++ [r]) ops' ans' ips'
-      | OAdapt _ args p n => spec_adapt E mros d regs args p n a && spec_run E mros d regs ops' ans' ips'
+      | OImplements c ifs => spec_run E mros all (s_add E d c ifs) regs ops' ans' ips'
+      | OFirst c i => spec_run E mros all (s_add E d c [i]) regs ops' ans' ips'
+      | OOnly c ifs => spec_run E mros all (sd_set d c (add_new ifs [], [], false)) regs ops' ans' ips'
+      | OImplSpec c b => spec_run E mros all (s_add_spec E d c b) regs ops' ans' ips'
+      | OProvidedBy x => spec_query E mros d x false a ip && spec_run E mros all d regs ops' ans' ips'
+      | OImplementedBy x => spec_query E mros d x true a ip && spec_run E mros all d regs ops' ans' ips'
+      | ORegister r => spec_run E mros all d (regs ++ [r]) ops' ans' ips'
+      | OAdapt _ args p n => spec_adapt E mros d regs args p n a && spec_run E mros all d regs ops' ans' ips'
       end
   | _, _, _ => false
   end.
@@ -232,7 +260,7 @@ Fixpoint spec_run (E : env) (mros : list (list cls)) (d : sdecl) (regs : list re
 Definition check_spec_decl (c : decl_case) : bool :=
   let '(_, E, mros, ops, ans, ips) := c in
   Nat.eqb (length mros) (length (e_cg E))
-  && spec_run E mros (map (fun _ => ([], [], true)) (e_cg E)) [] ops ans ips.
+  && spec_run E mros ops (map (fun _ => ([], [], true)) (e_cg E)) [] ops ans ips.
 
 (* registry stream: whenever a factory ran (answer [1; r], r = factory * 1000 + one digit per
    object it received, see Tie.RegCommon.call) the digits are those of the UNDERLYING objects:
